@@ -153,6 +153,32 @@ func soupType(r *prng.Rand, depth int) string {
 	return "map[" + soupType(r, depth-1) + ", " + soupType(r, depth-1) + "]"
 }
 
+// padSchema appends comment lines to a schema so that the text is exactly n bytes long
+// (or as close as a final newline allows).
+func padSchema(s string, n int) string {
+	var sb strings.Builder
+	sb.WriteString(s)
+	if !strings.HasSuffix(s, "\n") {
+		sb.WriteString("\n")
+	}
+	const line = "// padding padding padding padding padding padding padding 64b\n"
+	for sb.Len()+len(line) <= n {
+		sb.WriteString(line)
+	}
+	if rest := n - sb.Len(); rest >= 3 {
+		sb.WriteString("//")
+		for i := 0; i < rest-3; i++ {
+			sb.WriteByte('x')
+		}
+		sb.WriteString("\n")
+	} else {
+		for i := 0; i < rest; i++ {
+			sb.WriteString("\n")
+		}
+	}
+	return sb.String()
+}
+
 func runC10(c *Ctx) *Replay {
 	r := c.R
 	var input []byte
@@ -173,6 +199,11 @@ func runC10(c *Ctx) *Replay {
 		n := len(tokenVocab)
 		input = []byte(tokenVocab[k/(n*n)] + " " + tokenVocab[(k/n)%n] + " " + tokenVocab[k%n])
 		origin = "tokens3"
+	case r.Chance(1, 40):
+		// a LARGE valid schema: comment padding brings its length to a power of two between
+		// 64 KiB and 4 MiB, give or take a byte (buffer sizes, size limits)
+		input = []byte(padSchema(c.layoutSchema(), (1<<uint(r.Range(16, 22)))+[]int{-1, 0, 1, 17}[r.Intn(4)]))
+		origin = "large"
 	default:
 		switch r.Intn(9) {
 		case 8: // well-formed syntax, arbitrary meaning
@@ -232,6 +263,13 @@ func runC10(c *Ctx) *Replay {
 	}
 	// 1. fault-free parse under a drawn schedule, with the completeness probe
 	sc := Scenario{Kind: "readfile", Input: input, Sched: drawSchedule(r, len(input), nil), Reader: []string{"plain", "named"}[r.Intn(2)], Extra: map[string]string{"complete": "1"}}
+	if len(input) > 1<<15 {
+		// large inputs are read in large pieces (a million one-byte reads cost minutes)
+		sc.Sched = &simnet.Schedule{Name: "fixed", Repeat: []int{0, 4096, 65536, 1000}[r.Intn(4)]}
+		if sc.Sched.Repeat == 0 {
+			sc.Sched.Name = "all"
+		}
+	}
 	viol := execReadFile(c.N, &sc)
 	c.Count("evaluations", 1)
 	c.Count("outcome:"+sc.Extra["outcome"], 1)
@@ -250,6 +288,10 @@ func runC10(c *Ctx) *Replay {
 		for k := 0; k < len(input); k++ {
 			offs = append(offs, k)
 		}
+	} else if len(input) > 1<<15 {
+		for i := 0; i < 3; i++ {
+			offs = append(offs, r.Intn(len(input)))
+		}
 	} else {
 		for i := 0; i < 64; i++ {
 			offs = append(offs, r.Intn(len(input)))
@@ -265,6 +307,9 @@ func runC10(c *Ctx) *Replay {
 			case 1:
 				fs.RFault.Partial = true
 				fs.Sched = drawSchedule(r, len(input), nil)
+				if len(input) > 1<<15 {
+					fs.Sched = &simnet.Schedule{Name: "fixed", Repeat: 4096}
+				}
 				fk = "read-partial"
 			case 2:
 				fs.RFault.Transient = true
